@@ -1422,8 +1422,16 @@ class Compiler:
                     self._emit(OpCode.LOAD_CONST, idx)
                 else:
                     self._compile_expression(prop.key)
-                # Kind (for getters/setters)
-                kind_idx = self._add_constant(prop.kind)
+                # Kind (for getters/setters); only the plain `__proto__: value`
+                # form sets the prototype, every other spelling defines a property
+                kind = prop.kind
+                if kind == "init" and (
+                    prop.computed
+                    or prop.shorthand
+                    or getattr(prop, "method", False)
+                ):
+                    kind = "field"
+                kind_idx = self._add_constant(kind)
                 self._emit(OpCode.LOAD_CONST, kind_idx)
                 # Value
                 self._compile_expression(prop.value)
